@@ -305,9 +305,32 @@ class Gen:
                 w('    template <class Ev, class Fsm> bool is_event_deferred(Ev const& e, Fsm& f) const { return vf::deferred_pred_cb(vf_site(), %d, e, f); }' % s['defer_atom'])
                 w('#endif')
         if s['internal']:
+            member = self.variant in ('basic', 'row2')
+            if member:
+                # the state-local table written with the member-function internal rows (internal / a_internal /
+                # g_internal / _internal): guards and actions are members of the state
+                w('    static const char* vf_mname() { return "%s"; }' % mn)
+                for r in s['internal']:
+                    ev = self.ev_type(r['ev'])
+                    fid = self.fn_id(r)
+                    if r['_asites']:
+                        w('    void A_%s(%s const& e) { %s }' % (fid, ev, ' '.join('vf::member_action(%d, e, *this);' % i for i in r['_asites'])))
+                    if r['guard'] is not None:
+                        w('    bool G_%s(%s const& e) { return %s; }' % (fid, ev, self.guard_cpp(r['guard'], iter(r['_gsites']))))
+            if member:
+                # backmp11 does not compile the member-function internal rows of a *state* (they look the state up
+                # with fusion::at_key in the back-end's state list): functor rows there
+                w('#if !defined(VF_FAM_MP11)')
+                w('    struct internal_transition_table : boost::mpl::vector<')
+                w('        ' + ',\n        '.join((self.member_internal_expr(r, cn) if self.member_ok(r) else self.internal_expr(r))
+                                                 for r in s['internal']))
+                w('    > {};')
+                w('#else')
             w('    struct internal_transition_table : boost::mpl::vector<')
             w('        ' + ',\n        '.join(self.internal_expr(r) for r in s['internal']))
             w('    > {};')
+            if member:
+                w('#endif')
         w('};')
         if self.variant == 'euml':
             w('static %s const %s_ei;' % (cn, cn))
